@@ -1655,3 +1655,21 @@ def markSites : List (Level × Bytes) := [(Level.base, ([65] : Bytes)), (Level.b
 
 end CvssVerif.Gen.D2
 
+namespace CvssVerif.Gen.Errs
+open CvssVerif
+
+-- @def sentinels
+/-- the package-level variables of /repo/cvsserr: name, "new" when the initialiser is `errors.New(<string literal>)`, the message -/
+def sentinels : List (String × String × Bytes) := [("ErrInvalidTemplate", "new", ([105, 110, 118, 97, 108, 105, 100, 32, 116, 101, 109, 112, 108, 101, 116, 101, 32, 115, 116, 114, 105, 110, 103] : Bytes)),
+  ("ErrInvalidValue", "new", ([105, 110, 118, 97, 108, 105, 100, 32, 118, 97, 108, 117, 101, 32, 111, 102, 32, 109, 101, 116, 114, 105, 99] : Bytes)),
+  ("ErrInvalidVector", "new", ([105, 110, 118, 97, 108, 105, 100, 32, 118, 101, 99, 116, 111, 114] : Bytes)),
+  ("ErrMisordered", "new", ([109, 105, 115, 111, 114, 100, 101, 114, 101, 100, 32, 118, 101, 99, 116, 111, 114, 32, 115, 116, 114, 105, 110, 103] : Bytes)),
+  ("ErrNoBaseMetrics", "new", ([110, 111, 32, 66, 97, 115, 101, 32, 109, 101, 116, 114, 105, 99, 115] : Bytes)),
+  ("ErrNoEnvironmentalMetrics", "new", ([110, 111, 32, 69, 110, 118, 105, 114, 111, 110, 109, 101, 110, 116, 97, 108, 32, 109, 101, 116, 114, 105, 99, 115] : Bytes)),
+  ("ErrNoTemporalMetrics", "new", ([110, 111, 32, 84, 101, 109, 112, 111, 114, 97, 108, 32, 109, 101, 116, 114, 105, 99, 115] : Bytes)),
+  ("ErrNotSupportMetric", "new", ([110, 111, 116, 32, 115, 117, 112, 112, 111, 114, 116, 32, 109, 101, 116, 114, 105, 99] : Bytes)),
+  ("ErrNotSupportVer", "new", ([110, 111, 116, 32, 115, 117, 112, 112, 111, 114, 116, 32, 118, 101, 114, 115, 105, 111, 110] : Bytes)),
+  ("ErrNullPointer", "new", ([78, 117, 108, 108, 32, 114, 101, 102, 101, 114, 101, 110, 99, 101, 32, 105, 110, 115, 116, 97, 110, 99, 101] : Bytes)),
+  ("ErrSameMetric", "new", ([101, 120, 105, 115, 116, 32, 115, 97, 109, 101, 32, 109, 101, 116, 114, 105, 99] : Bytes))]
+
+end CvssVerif.Gen.Errs
